@@ -14,6 +14,8 @@ Only the *shape* of the access path is analysed; no code is run.
 """
 from flow import local_target
 
+ITER_VIEWS = ('core::slice::<impl [T]>::iter', 'std::iter::IntoIterator::into_iter', 'std::iter::Iterator::by_ref', 'std::iter::Iterator::collect',
+              'std::iter::Iterator::copied', 'std::iter::Iterator::cloned', 'std::iter::Iterator::rev')
 WRAPPERS = ('std::option', 'core::option', 'std::result', 'core::result', 'std::ops::ControlFlow', 'core::ops::ControlFlow')
 PASS = ('std::ops::Try::branch', 'std::ops::FromResidual::from_residual', 'std::option::Option::<T>::ok_or', 'std::option::Option::<T>::ok_or_else',
         'std::result::Result::<T, E>::map_err', 'std::option::Option::<T>::unwrap', 'std::result::Result::<T, E>::unwrap',
@@ -71,10 +73,26 @@ class Tracer:
                 out.append(('rng', (None, p['from']), None if (p['from_end'] and p['to'] == 0) else (('end-', p['to']) if p['from_end'] else (None, p['to']))))
             elif p['k'] == 'index':
                 t = zf.term_local(p['l'])
-                out.append(('idx', t[1]) if t is not None and t[0] is None else ('idx?', None))
+                out.append(self._index_step(zf, t))
             else:
                 out.append(('?', p['k']))
         return out
+
+    def _index_step(self, zf, t):
+        """the step for `v[t]`: a constant position, or - inside a closure mapped over `a..b` whose argument is the index variable - the
+        positions a + c .. b + c, one per item of the mapped range (`(0..M).map(|i| T { m: v[i + 2], .. })`)"""
+        if t is not None and t[0] is None:
+            return ('idx', t[1])
+        if t is not None and t[0] == 'p2' and zf.body.kind == 'Closure':
+            cc = zf.closure_ctx()
+            if cc is not None and cc[3] is not None:
+                pzf, _cb, _caps, (cbi, call) = cc
+                if (call.get('callee') or '') in ('std::iter::Iterator::map', 'std::iter::Iterator::for_each', 'std::iter::Iterator::filter_map') and call['args']:
+                    cont = pzf.iter_container(call['args'][0])
+                    if cont is not None and cont[0] == 'rangeiter' and cont[2] is not None and cont[3] is not None:
+                        a, b = cont[2], cont[3]
+                        return ('rng', (a[0], a[1] + t[1]), (b[0], b[1] + t[1]))
+        return ('idx?', None)
 
     def trace_op(self, fn, op, pending, depth=0):
         if op['k'] not in ('copy', 'move'):
@@ -133,7 +151,7 @@ class Tracer:
                         out |= self.trace_op(fn, t['args'][0], [step] + rest, depth + 1) if step else {None}
                     else:
                         kt = zf.term_op(t['args'][1])
-                        out |= self.trace_op(fn, t['args'][0], [('idx', kt[1]) if kt is not None and kt[0] is None else ('idx?', None)] + rest, depth + 1)
+                        out |= self.trace_op(fn, t['args'][0], [self._index_step(zf, kt)] + rest, depth + 1)
                 elif cal in ('core::slice::<impl [T]>::split_at', 'core::slice::<impl [T]>::split_first', 'core::slice::<impl [T]>::split_at_checked') and rest and rest[0][0] == 'f':
                     which = rest[0][1]
                     if cal.endswith('split_first'):
@@ -152,6 +170,23 @@ class Tracer:
                     out |= self.trace_op(fn, t['args'][0], [step] + rest, depth + 1)
                 elif cal in PASS and t['args']:
                     out |= self.trace_op(fn, t['args'][0], rest, depth + 1)
+                elif cal == 'std::iter::Iterator::next' and t['args']:
+                    # one item of an iteration: some element of what is iterated
+                    out |= self.trace_op(fn, t['args'][0], [('each',)] + rest, depth + 1)
+                elif cal in ITER_VIEWS and t['args']:
+                    out |= self.trace_op(fn, t['args'][0], rest, depth + 1)
+                elif cal in ('std::iter::Iterator::map',) and len(t['args']) == 2 and rest and rest[0] == ('each',) and t['args'][1]['k'] in ('copy', 'move'):
+                    # an item of `iter.map(closure)`: what the closure returns
+                    ci = fd._closure_info(t['args'][1]['pl']['l'])
+                    if ci is not None and ci[0] in self.prog.bodies:
+                        sub = Tracer(self.ctx, self.cfg, self.roots)
+                        sub._outer = self
+                        sub._closure_of = (fn, ci[1])
+                        for r in sub.trace(ci[0], 0, rest[1:], depth + 1):
+                            out.add(r)
+                        self.visited_fns |= sub.visited_fns
+                    else:
+                        out.add(None)
                 elif tgt is not None and tgt in self.prog.bodies:
                     # a helper: follow its return value; parameters reached inside come back as this call's arguments
                     out |= self._through(fn, t, tgt, rest, depth + 1)
@@ -180,6 +215,11 @@ class Tracer:
 
     def _up(self, fn, l, pending, depth):
         outer = getattr(self, '_outer', None)
+        co = getattr(self, '_closure_of', None)
+        if co is not None and self.prog.bodies[fn].kind == 'Closure' and l == 1 and pending and pending[0][0] == 'f' and str(pending[0][1]).isdigit() \
+                and outer is not None and int(pending[0][1]) < len(co[1]):
+            # a captured variable: the operand the closure was built with, in the function that built it
+            return outer.trace_op(co[0], co[1][int(pending[0][1])], pending[1:], depth + 1)
         sites = self.callers(fn)
         if not sites:
             self._terminal(('param', fn, self.prog.bodies[fn].local_name(l)))
@@ -202,6 +242,8 @@ class Tracer:
         lo = (None, 0)
         hi = None
         for k, st in enumerate(pending):
+            if st[0] == 'each':
+                continue      # (some element of a range of positions: the range is what the role covers)
             if st[0] == 'idx':
                 if lo[0] is not None and st[1] != 0:
                     return None
